@@ -589,3 +589,109 @@ def _showr(r):
         return " + ".join(terms) or "0"
 
     return poly(r.num) if r.den == {(): 1} else f"({poly(r.num)})/({poly(r.den)})"
+
+
+@rule(
+    "INDEX-MAPS",
+    ["C01", "C04"],
+    "ir/analysis/indexing.py, interpreted on sample Indexed / ComponentTensor nodes: the returned list maps every flattened "
+    "component of the node (row-major over value shape then free-index dimensions, free indices ordered by count) to the "
+    "component of its operand that UFL's semantics names - fixed indices, free indices bound by the multi-index (in any order, "
+    "i.e. including transpositions) and free indices passed through",
+    min_instances=6,
+)
+def index_maps(repo, res):
+    import itertools
+
+    IM = "ffcx.ir.analysis.indexing"
+    m = repo.mod(IM)
+
+    def strides(shape):
+        out, acc = [], 1
+        for n_ in reversed(shape):
+            out.append(acc)
+            acc *= n_
+        return tuple(reversed(out))
+
+    def flat(idx, shape):
+        return sum(i * s_ for i, s_ in zip(idx, strides(shape)))
+
+    def mk():
+        it = Interp(repo, load_classes(repo), primary=IM)
+        it.overrides["compute_indices"] = _PyCall(lambda shape: [tuple(t) for t in itertools.product(*[range(n_) for n_ in shape])])
+        it.overrides["shape_to_strides"] = _PyCall(lambda shape: strides(tuple(shape)))
+        it.overrides["flatten_multiindex"] = _PyCall(lambda ii, st: sum(i * s_ for i, s_ in zip(ii, st)))
+        it.overrides["ufl.product"] = _PyCall(lambda seq: __import__("math").prod(list(seq)))
+        return it
+
+    def idx(c):
+        return Node("Index", count=_PyCall(lambda _c=c: _c))
+
+    def fixed(v):
+        return Node("FixedIndex", value=v)
+
+    def expr(kind, operands=(), shape=(), fi=(), fid=()):
+        return Node(kind, ufl_operands=tuple(operands), ufl_shape=tuple(shape), ufl_free_indices=tuple(fi), ufl_index_dimensions=tuple(fid))
+
+    # ---- Indexed: e1 = e2[mi]
+    f = m.func("map_indexed_arg_components")
+    res.functions.add(f.key)
+    icases = [
+        ("A[1, i7] with A of shape (2,3) and a free index 4", (2, 3), (4,), (2,), [("fixed", 1), ("free", 7)]),
+        ("A[i7, i2] (transposition: index counts in reverse order)", (2, 3), (), (), [("free", 7), ("free", 2)]),
+        ("A[i3, 0, i1] with A of shape (2,2,3)", (2, 2, 3), (), (), [("free", 3), ("fixed", 0), ("free", 1)]),
+    ]
+    for label, sh2, fi2, fid2, mi_spec in icases:
+        key = f"{f.key}:{label}"
+        res.ob(key)
+        dims = dict(zip(fi2, fid2))
+        for (kind, v), n_ in zip(mi_spec, sh2):
+            if kind == "free":
+                dims[v] = n_
+        fi1 = tuple(sorted(dims))
+        fid1 = tuple(dims[i] for i in fi1)
+        e2 = expr("Tensor", shape=sh2, fi=fi2, fid=fid2)
+        mi = [fixed(v) if kind == "fixed" else idx(v) for kind, v in mi_spec]
+        e1 = expr("Indexed", operands=(e2, mi), shape=(), fi=fi1, fid=fid1)
+        try:
+            got = mk().call_f(f, [e1])
+        except Raised as e:
+            res.fail(key, f"map_indexed_arg_components raises ({e.what}) on {label}", m.line(f.node))
+            continue
+        want = []
+        tsh2 = tuple(sh2) + tuple(fid2)
+        for p1 in itertools.product(*[range(d_) for d_ in fid1]):
+            val = dict(zip(fi1, p1))
+            p2 = [v if kind == "fixed" else val[v] for kind, v in mi_spec] + [val[i] for i in fi2]
+            want.append(flat(p2, tsh2))
+        if list(got) != want:
+            res.fail(key, f"{label}: component map is {list(got)}, expected {want}: scalar components of the indexed tensor would be paired with the wrong entries", m.line(f.node))
+    # ---- ComponentTensor: e2 = as_tensor(e1, mi)
+    g = m.func("map_component_tensor_arg_components")
+    res.functions.add(g.key)
+    ccases = [
+        ("as_tensor(e[i2,i7,i9], (i7, i2)) (shape (2,3), free index 9)", (2, 7, 9), (3, 2, 2), [7, 2]),
+        ("as_tensor(e[i1,i4], (i1, i4)) (identity)", (1, 4), (2, 3), [1, 4]),
+        ("as_tensor(e[i1,i4,i6], (i6,)) (two free indices remain)", (1, 4, 6), (2, 2, 3), [6]),
+    ]
+    for label, fi1, fid1, mi_counts in ccases:
+        key = f"{g.key}:{label}"
+        res.ob(key)
+        d1 = dict(zip(fi1, fid1))
+        sh2 = tuple(d1[c] for c in mi_counts)
+        fi2 = tuple(i for i in fi1 if i not in mi_counts)
+        fid2 = tuple(d1[i] for i in fi2)
+        e1 = expr("Indexed", shape=(), fi=fi1, fid=fid1)
+        mi = [idx(c) for c in mi_counts]
+        e2 = expr("ComponentTensor", operands=(e1, mi), shape=sh2, fi=fi2, fid=fid2)
+        try:
+            got = mk().call_f(g, [e2])
+        except Raised as e:
+            res.fail(key, f"map_component_tensor_arg_components raises ({e.what}) on {label}", m.line(g.node))
+            continue
+        want = []
+        for p2 in itertools.product(*[range(d_) for d_ in sh2 + fid2]):
+            val = dict(zip(list(mi_counts) + list(fi2), p2))
+            want.append(flat([val[i] for i in fi1], fid1))
+        if list(got) != want:
+            res.fail(key, f"{label}: component map is {list(got)}, expected {want}", m.line(g.node))
